@@ -89,3 +89,21 @@ CONTRACTS.append(
         ],
     )
 )
+
+
+# _set_param_values (cdd/shared/docstring_parsers.py): what a ReST ':type name: T' line stores as the type -- the code fence
+# is taken off FIRST and a '**kwargs'-like type becomes 'dict', so that the stored string never starts with '**' (which is no
+# Python expression: "each type is a string that parses as a Python expression").  str.replace is an uninterpreted function
+# of its arguments, the same one in code and specification.
+_T = "replace(val, '```', '')"
+CONTRACTS.append(
+    Contract(
+        M + ":_set_param_values",
+        params={"input_str": "str", "val": "str", "sw": "str"},
+        ensures=[
+            "result[0] == ite(startswith(input_str, sw), 'typ', 'doc')",
+            "implies(not startswith(input_str, sw), result[1] == val)",
+            "implies(startswith(input_str, sw), result[1] == ite(startswith(%s, '**'), 'dict', %s))" % (_T, _T),
+        ],
+    )
+)
